@@ -6,8 +6,11 @@ pub mod c01;
 pub mod c02;
 pub mod c03;
 pub mod c04;
+pub mod c05;
 pub mod c06;
 pub mod c07;
+pub mod c08;
+pub mod c09;
 pub mod c10;
 pub mod c11;
 pub mod c12;
@@ -26,8 +29,11 @@ pub fn registry() -> Vec<PropMeta> {
         meta::<c02::C02>(),
         meta::<c03::C03>(),
         meta::<c04::C04>(),
+        meta::<c05::C05>(),
         meta::<c06::C06>(),
         meta::<c07::C07>(),
+        meta::<c08::C08>(),
+        meta::<c09::C09>(),
         meta::<c10::C10>(),
         meta::<c11::C11>(),
         meta::<c12::C12>(),
@@ -43,6 +49,9 @@ pub fn registry() -> Vec<PropMeta> {
 }
 
 /// `tuv child <what> ...`: helper child processes used by some checks (e.g. C09 panic => exit)
-pub fn child_entry(_args: &[String]) -> i32 {
-    crate::engine::EXIT_INTERNAL
+pub fn child_entry(args: &[String]) -> i32 {
+    match args.first().map(|s| s.as_str()) {
+        Some("panic-pipe") => c09::child_panic_pipe(&args[1..]),
+        _ => crate::engine::EXIT_INTERNAL,
+    }
 }
